@@ -81,6 +81,11 @@ static void sched(int must)
     if (a == 0) return;
     if (a == 1) step_submit();
     else {
+#ifdef KF_LOGGER_DROP_ON_STOP
+      /* known finding: the loop leaves at once when the stop flag is set. Complement of the failing class: stop is only requested when
+         every line accepted so far has already been written */
+      if (stop_phase == 0) { uint32_t acc = 0; for (uint32_t id = 1; id <= NLINES; id++) if (id <= n_sub && sub_enabled[id]) acc++; VF_ASSUME(n_proc == acc); }
+#endif
 #if STOPMODE == 0
       stop_phase = 1; vf_lg_stop(&the_lg); stop_phase = 2;
 #else
@@ -110,9 +115,7 @@ int main(void)
     VF_ASSERT(sub_ret[id] == 1, "C28: submitting reports success for an accepted line");
 #endif
     if (sub_before_stop[id]) {
-#ifndef KF_LOGGER_DROP_ON_STOP
       VF_ASSERT(k < n_proc && proc_id[k] == id, "C28: every line accepted before stop is written, exactly once, in order, before the logger thread ends");
-#endif
       k++;
     }
   }
